@@ -44,6 +44,7 @@ def run(ctx):
     with Pool(seeds=hash_seeds(ctx), init="engines.gwork:init", recycle=4000) as pool:
         outs = pool.map_on("engines.gwork:eval_c01", items, which)
         pin_out = pool.map_on("engines.gwork:eval_ids", [{"G": p["G"]} for p in pins], [i + ctx.seed for i in range(len(pins))])
+        marked = pool.map_on("engines.gwork:eval_marked", [{}, {}], [ctx.seed, ctx.seed + 1])
     requests = sum(o["requests"] for o in outs)
     histories = sum(o["histories"] for o in outs)
     sigs = set()
@@ -65,6 +66,21 @@ def run(ctx):
                        f"{m['phase']} of history style={m['history'][0]} reversed={m['history'][1]} request-order={m['history'][2]}; "
                        f"content-determined value is {m['expected'][:16]} (raw {m['expected_raw'][:16]})")
             res.violation(key, msg, {"G": G, "history": m.get("history"), "mismatch": m})
+    # family "task output = own parameter of the task": same content => same identifier, whenever the identifier of the
+    # parameter was requested (never / before the submission / after it / both), in two processes
+    msig = {}
+    for rows in marked:
+        for r in rows:
+            if "error" in r:
+                res.violation("history-raises:marked-parameter", json.dumps(r)[:800], {"marked": r})
+            else:
+                msig.setdefault(r["sig"], {}).setdefault(r["id"], r)
+    for sg, ids in msig.items():
+        if len(ids) > 1:
+            a, b = list(ids.values())[:2]
+            res.violation("identifier:marked-parameter", f"(embedder, leaf value, producing task) {sg}: identifier {a['id'][:16]} when the parameter's identifier "
+                          f"is requested '{a['hist']}', {b['id'][:16]} when '{b['hist']}'", {"marked": [a, b]})
+    requests_marked = sum(len(rows) for rows in marked)
     npin_bad = 0
     for p, o in zip(pins, pin_out):
         if o.get("error") or o.get("id") != p["id"]:
@@ -72,7 +88,8 @@ def run(ctx):
             res.violation(f"pinned:{graph_kind(p['G'])}", f"pinned identifier {p['id'][:16]} of {json.dumps(p['G'])[:500]} is now {o.get('id') or o.get('error')}",
                           {"G": p["G"], "pinned": p["id"], "now": o})
     res.coverage = {
-        "evaluations": requests,
+        "evaluations": requests + requests_marked,
+        "marked_parameter_family": {"cases": requests_marked, "distinct_contents": len(msig)},
         "distinct_nontrivial": len(sigs),
         "rule": "every description within (N nodes, k deviations) from the default graph of each root class and from the seed graphs "
                 "(cycles, sharing, meta elements, tasks/outputs/pre/init tasks) x histories {kwargs|assignment construction, forward|reverse "
@@ -98,6 +115,9 @@ def run(ctx):
 def replay(ctx, payload):
     from . import gwork
     gwork.init()
+    if "marked" in payload:
+        print(json.dumps(payload["marked"], indent=1))
+        return 0
     G = payload["G"]
     print("description:", json.dumps(G))
     h = payload.get("history")
